@@ -94,6 +94,7 @@ fn main() {
             "C03" => vharness::checks::c03::run(tier),
             "C04" => vharness::checks::c04::run(tier),
             "C05" => vharness::checks::c05::run(tier),
+            "C06" => vharness::checks::c06::run(tier),
             other => {
                 eprintln!("unknown check {other}");
                 2
